@@ -2,6 +2,7 @@ package main
 
 import (
 	"fmt"
+	"github.com/ovn-org/libovsdb/ovsdb"
 	"sort"
 	"strings"
 
@@ -69,6 +70,12 @@ func oracleAtomic(lab *txnLab, before map[string]map[string]map[string]val.Val, 
 	}
 	if firstErr >= 0 && stateKey(before, beforeRefs) != stateKey(ob.State, ob.Refs) {
 		return fmt.Sprintf("the transaction failed (result %d: %s) but the database or its reference index changed", firstErr, ob.Results[firstErr].Msg)
+	}
+	if firstErr >= 0 {
+		// ... also as seen through its indexes: every row is found by the value it holds in an indexed column
+		if msg := lab.indexProbe(ob.State); msg != "" {
+			return fmt.Sprintf("the transaction failed (result %d: %s) and left the database changed: %s", firstErr, ob.Results[firstErr].Msg, msg)
+		}
 	}
 	// all: a committed transaction applied every operation - an insert into a root table that reported success
 	// and is not deleted again later in the transaction is stored
@@ -264,6 +271,7 @@ func c02Schema() dyn.Schema {
 			{Name: "name", K: 'a', KT: 's'}, {Name: "n", K: 'a', KT: 'i'}, {Name: "im", K: 'a', KT: 's', Immutable: true},
 			{Name: "kids", K: 's', KT: 'u', Max: -1, RefTable: "C", RefType: "strong"},
 			{Name: "w1", K: 's', KT: 'u', Min: 1, Max: -1, RefTable: "Q", RefType: "weak"},
+			{Name: "wo", K: 'o', KT: 'u', RefTable: "Q", RefType: "weak"},
 			{Name: "ss", K: 's', KT: 's', Max: -1}, {Name: "m", K: 'm', KT: 's', VT: 's', Max: -1},
 			{Name: "bs", K: 's', KT: 's', Max: 3}, {Name: "bi", K: 's', KT: 'i', Min: 0, Max: 2},
 			{Name: "m1", K: 'm', KT: 's', VT: 's', Max: 1},
@@ -414,7 +422,7 @@ func c02Seed(tg *txnGen) []TOp {
 			ks.Set = append(ks.Set, val.Uuid(k))
 		}
 		ops = append(ops, TOp{Kind: "insert", Table: "P", UUID: tg.fresh(), Row: map[string]val.Val{
-			"name": val.VA(gen.AtomN('s', i)), "kids": ks, "w1": val.VS(val.Uuid(qs[i%2]), val.Uuid(qs[2]))}})
+			"name": val.VA(gen.AtomN('s', i)), "kids": ks, "w1": val.VS(val.Uuid(qs[i%2]), val.Uuid(qs[2])), "wo": val.VSome(val.Uuid(qs[i%2]))}})
 	}
 	return ops
 }
@@ -653,4 +661,42 @@ func c04Txn(tg *txnGen) []TOp {
 		}
 	}
 	return ops
+}
+
+// indexProbe selects every row by the value it holds in each single-column index of its table (a transaction of
+// selects that is not committed) and reports a row that is not found.
+func (l *txnLab) indexProbe(state map[string]map[string]map[string]val.Val) (msg string) {
+	defer func() {
+		if r := recover(); r != nil {
+			msg = fmt.Sprint("select by an indexed value panics: ", r)
+		}
+	}()
+	for _, t := range l.db.Spec.Tables {
+		for _, idx := range t.Indexes {
+			if len(idx) != 1 {
+				continue
+			}
+			var us []string
+			for u := range state[t.Name] {
+				us = append(us, u)
+			}
+			sort.Strings(us)
+			for _, u := range us {
+				op := TOp{Kind: "select", Table: t.Name, Where: []Cond{{Col: idx[0], Fn: "==", Arg: state[t.Name][u][idx[0]]}}}
+				res, _ := l.imdb.NewTransaction(l.name).Transact(op.operation(l.db))
+				found := false
+				if len(res) == 1 && res[0] != nil && res[0].Error == "" {
+					for _, row := range res[0].Rows {
+						if id, ok := row["_uuid"].(ovsdb.UUID); ok && id.GoUUID == u {
+							found = true
+						}
+					}
+				}
+				if !found {
+					return fmt.Sprintf("row %s of %s is stored with %s = %s but a select by that value does not return it", u, t.Name, idx[0], state[t.Name][u][idx[0]].Key())
+				}
+			}
+		}
+	}
+	return ""
 }
